@@ -177,15 +177,21 @@ def pairTerm (pd : PairData K) (ip iq : Nat) (n0 n1 : Nat × Nat × Nat) : K :=
 
 def enum {α : Type} (l : List α) : List (Nat × α) := (List.range l.length).zip l
 
-/-- `shell_overlap` before the Cartesian→pure step (rows: functions of shell0). -/
-def cartBlock (ops : Ops K) (s0 s1 : Shell K) (sc0 sc1 : List (K × List K)) (r0 r1 : V3 K) : List (List K) :=
+/-- the primitive pairs that survive the `prefactor < 1e-15` test, in loop order -/
+def pairList (ops : Ops K) (sc0 sc1 : List (K × List K)) (r0 r1 : V3 K) : List (PairData K) :=
   let rij := r0.sub r1
   let rij2 := rij.dot rij
-  let pds : List (PairData K) :=
-    sc0.flatMap fun p0 => sc1.filterMap fun p1 => pairData ops r0 r1 rij2 p0 p1
+  sc0.flatMap fun p0 => sc1.filterMap fun p1 => pairData ops r0 r1 rij2 p0 p1
+
+/-- element `(ip, iq)` of `shell_overlap` (Cartesian powers `n0`, `n1`): `shell_overlap += v` over the pairs -/
+def entryOf (pds : List (PairData K)) (ip iq : Nat) (n0 n1 : Nat × Nat × Nat) : K :=
+  sumL (pds.map fun pd => pairTerm pd ip iq n0 n1)
+
+/-- `shell_overlap` before the Cartesian→pure step (rows: functions of shell0). -/
+def cartBlock (ops : Ops K) (s0 s1 : Shell K) (sc0 sc1 : List (K × List K)) (r0 r1 : V3 K) : List (List K) :=
+  let pds := pairList ops sc0 sc1 r0 r1
   (enum (cartAlphabet s0.angmom)).map fun p =>
-    (enum (cartAlphabet s1.angmom)).map fun q =>
-      sumL (pds.map fun pd => pairTerm pd p.1 q.1 p.2 q.2)
+    (enum (cartAlphabet s1.angmom)).map fun q => entryOf pds p.1 q.1 p.2 q.2
 
 def dotL (a b : List K) : K := sumL ((a.zip b).map fun p => p.1 * p.2)
 
@@ -263,45 +269,59 @@ def allSome {α : Type} : List (Option α) → Option (List α)
 
 def keysOf (shells : List (Shell K)) : List Iodata.Conv.Key := shells.map fun s => (s.angmom, s.kind)
 
+/-- "Handle optional arguments": `(identical, segmented shells1, conventions1, atcoords1)` or the error raised -/
+def secondArgs (b0 : Basis K) (sh0 : List (Shell K)) (xyz0 : List (V3 K)) (b1 : Option (Basis K))
+    (xyz1 : Option (List (V3 K))) : Except Err (Bool × List (Shell K) × Iodata.Conv.Table × List (V3 K)) :=
+  match b1, xyz1 with
+  | none, some _ => .error .typeError
+  | none, none => .ok (true, sh0, b0.conventions, xyz0)
+  | some b, x1 =>
+    if ¬ b.l2 then .error .valueError else
+    match x1 with
+    | none => .error .typeError
+    | some x => .ok (false, segment b.shells, b.conventions, x)
+
+/-- the blocks computed by the two shell loops (`blocks[i0][i1]`) -/
+def rawBlocks (ops : Ops K) (tfs : Nat → List (List K)) (identical : Bool) (sh0 sh1 : List (Shell K))
+    (xyz0 x1 : List (V3 K)) (sizes0 sizes1 : List Nat) : List (List (List (List K))) :=
+  let z : V3 K := ⟨zeroK, zeroK, zeroK⟩
+  let sc0 := sh0.map (scales ops)
+  let sc1 := if identical then sc0 else sh1.map (scales ops)
+  -- the blocks that the loops compute (lower triangle only for identical bases)
+  (enum sh0).map fun e0 =>
+    ((enum sh1).take (if identical then e0.1 + 1 else sh1.length)).map fun e1 =>
+      shellBlock ops tfs e0.2 e1.2 (sc0.getD e0.1 []) (sc1.getD e1.1 [])
+        (xyz0.getD e0.2.icenter z) (x1.getD e1.2.icenter z) (sizes0.getD e0.1 0) (sizes1.getD e1.1 0)
+
+/-- content of `overlap` after the shell loops (before conventions) as a function of `(row, column)` -/
+def rawMatrix (identical : Bool) (blocks : List (List (List (List K)))) (sizes0 sizes1 : List Nat) : Nat → Nat → K :=
+  rawEntry identical (fun i0 i1 => (blocks.getD i0 []).getD i1 []) sizes0 sizes1
+
+/-- the two `convert_conventions(…, reverse=True)` results applied to rows and columns -/
+def finish (p0r p1r : Except Iodata.Conv.Err (List (Nat × Int))) (raw : Nat → Nat → K) : Except Err (List (List K)) :=
+  match p0r with
+  | .error e => .error (.conv e)
+  | .ok p0 =>
+    match p1r with
+    | .error e => .error (.conv e)
+    | .ok p1 => .ok (applyConv p0 p1 raw sgnMul)
+
 /-- `compute_overlap(obasis0, atcoords0, obasis1, atcoords1)`;
 `overlapConv` = `OVERLAP_CONVENTIONS` (the HORTON2 table), `tfs` = `overlap_cartpure.tfs`. -/
 def computeOverlap (ops : Ops K) (tfs : Nat → List (List K)) (overlapConv : Iodata.Conv.Table)
     (b0 : Basis K) (xyz0 : List (V3 K)) (b1 : Option (Basis K)) (xyz1 : Option (List (V3 K))) :
     Except Err (List (List K)) :=
   if ¬ b0.l2 then .error .valueError else
-  let sh0 := segment b0.shells
-  let second : Except Err (Bool × List (Shell K) × Iodata.Conv.Table × List (V3 K)) :=
-    match b1, xyz1 with
-    | none, some _ => .error .typeError
-    | none, none => .ok (true, sh0, b0.conventions, xyz0)
-    | some b, x1 =>
-      if ¬ b.l2 then .error .valueError else
-      match x1 with
-      | none => .error .typeError
-      | some x => .ok (false, segment b.shells, b.conventions, x)
-  match second with
+  match secondArgs b0 (segment b0.shells) xyz0 b1 xyz1 with
   | .error e => .error e
   | .ok (identical, sh1, conv1, x1) =>
-    match allSome (sh0.map nbasisShell), allSome (sh1.map nbasisShell) with
+    match allSome ((segment b0.shells).map nbasisShell), allSome (sh1.map nbasisShell) with
     | some sizes0, some sizes1 =>
-      if sh0.isEmpty then .error .valueError else
-      let z : V3 K := ⟨zeroK, zeroK, zeroK⟩
-      let sc0 := sh0.map (scales ops)
-      let sc1 := if identical then sc0 else sh1.map (scales ops)
-      -- the blocks that the loops compute (lower triangle only for identical bases)
-      let blocks : List (List (List (List K))) :=
-        (enum sh0).map fun e0 =>
-          ((enum sh1).take (if identical then e0.1 + 1 else sh1.length)).map fun e1 =>
-            shellBlock ops tfs e0.2 e1.2 (sc0.getD e0.1 []) (sc1.getD e1.1 [])
-              (xyz0.getD e0.2.icenter z) (x1.getD e1.2.icenter z) (sizes0.getD e0.1 0) (sizes1.getD e1.1 0)
-      let blk := fun i0 i1 => (blocks.getD i0 []).getD i1 []
-      match Iodata.Conv.convBasis b0.conventions overlapConv (keysOf sh0) true with
-      | .error e => .error (.conv e)
-      | .ok p0 =>
-        let p1r := if identical then .ok p0 else Iodata.Conv.convBasis conv1 overlapConv (keysOf sh1) true
-        match p1r with
-        | .error e => .error (.conv e)
-        | .ok p1 => .ok (applyConv p0 p1 (rawEntry identical blk sizes0 sizes1) sgnMul)
+      if (segment b0.shells).isEmpty then .error .valueError else
+      let blocks := rawBlocks ops tfs identical (segment b0.shells) sh1 xyz0 x1 sizes0 sizes1
+      let raw := rawMatrix identical blocks sizes0 sizes1
+      let p0r := Iodata.Conv.convBasis b0.conventions overlapConv (keysOf (segment b0.shells)) true
+      finish p0r (if identical then p0r else Iodata.Conv.convBasis conv1 overlapConv (keysOf sh1) true) raw
     | _, _ => .error .typeError
 
 end numeric
